@@ -20,7 +20,7 @@ FUNCTIONS = [
     "flow.record.adapter.jsonfile:JsonfileWriter.__init__",
     "flow.record.adapter.jsonfile:JsonfileReader.__iter__",
 ]
-BOUNDS = {"types": "25 JSON-supported field types (scalar and list)", "values": "3-6 candidates per type incl. None, empty, boundary, big integers, surrogate escapes", "sequences": "two consecutive records of one type (any pair of candidates)", "configurations": "descriptors on/off x indent None/2"}
+BOUNDS = {"types": "25 JSON-supported field types (scalar and list)", "values": "3-6 candidates per type incl. None, empty, boundary, big integers, surrogate escapes", "sequences": "two consecutive records of one type (any pair of candidates); three records of two types with a same-named field of different type (every type pair x candidates)", "configurations": "descriptors on/off x indent None/2"}
 STUBS = ["none: RecordWriter(jsonfile://...) / RecordReader on temporary files with the real json module"]
 OUTSIDE = ["json's own treatment of NaN/Infinity and of surrogates (C encoder)", "Windows paths and commands (JSON stores their text form only)"]
 ASSUMPTIONS = ["with descriptors disabled only scalar JSON values (text, numbers, booleans, null) are compared"]
@@ -170,6 +170,95 @@ def _judge(text, recs, D, desc_on, indent, read_back):
     return None
 
 
+def run_mixed(ti, tj, a, b, desc_on):
+    """Three records of TWO record types whose field 'f' has the same name but different types, in one file: A(a), B(b), A(None).
+    -> None or a description of the violated clause."""
+    from flow.record import RecordDescriptor, RecordReader, RecordWriter
+
+    (ta, ca), (tb, cb) = CAND[ti], CAND[tj]
+    DA = RecordDescriptor("test/json", [(ta, "f"), ("string", "g")])
+    DB = RecordDescriptor("test/other", [(tb, "f"), ("string", "g")])
+    recs = [DA(ca[a], "first"), DB(cb[b], "second"), DA(None, "third")]
+    with tempdir() as tmp:
+        path = os.path.join(tmp, "x.json")
+        url = "jsonfile://" + path + "?descriptors=" + ("true" if desc_on else "false")
+        try:
+            w = RecordWriter(url)
+            for r in recs:
+                w.write(r)
+            w.flush()
+            w.close()
+        except Exception as e:  # noqa: BLE001
+            return f"writing raised {type(e).__name__}: {e}"
+        docs = []
+        for line in open(path).read().splitlines():
+            try:
+                docs.append(json.loads(line))
+            except ValueError as e:
+                return f"line is not a standalone JSON document: {line[:60]!r}: {e}"
+        rec_docs = [d for d in docs if not (isinstance(d, dict) and d.get("_type") == "recorddescriptor")]
+        if len(rec_docs) != 3 or len(docs) != (5 if desc_on else 3):
+            return f"{len(docs)} documents, {len(rec_docs)} of them records, for 3 records of 2 types (descriptors={desc_on})"
+        try:
+            got = list(RecordReader(path))
+        except Exception as e:  # noqa: BLE001
+            return f"reading back raised {type(e).__name__}: {e}"
+        if len(got) != 3:
+            return f"{len(got)} records read back"
+        for i, (g, r, d) in enumerate(zip(got, recs, rec_docs)):
+            if desc_on:
+                if g._desc.name != r._desc.name or g._desc.get_field_tuples() != r._desc.get_field_tuples():
+                    return f"record {i} read back with descriptor {g._desc.name} {g._desc.get_field_tuples()}, written {r._desc.name} {r._desc.get_field_tuples()}"
+                for fld in ("f", "g", "_source", "_classification", "_generated", "_version"):
+                    if obs(getattr(g, fld)) != obs(getattr(r, fld)):
+                        return f"record {i} field {fld}: read {obs(getattr(g, fld))}, written {obs(getattr(r, fld))}"
+            else:
+                if g._desc.name != "json/record":
+                    return f"plain line read back as {g._desc.name}"
+                for fld in ("f", "g"):
+                    jv = d[fld]
+                    if isinstance(jv, (list, dict)):
+                        continue
+                    gv = getattr(g, fld)
+                    same = (gv is None) if jv is None else (type(jv) is bool and bool(gv) == jv and type(gv).__name__ == "boolean") or (type(jv) is not bool and gv == jv and not isinstance(gv, str) == (not isinstance(jv, str)))
+                    if not same:
+                        return f"plain line {i} field {fld}: JSON value {jv!r}, record value {gv!r} ({type(gv).__name__})"
+    return None
+
+
+def mixed(ti: int, step: int = 1):
+    """path-exhaustive over (second type, candidate of each, descriptors on/off); step > 1: every step-th second type, shifted by ti"""
+    from crosshair.tracers import NoTracing
+
+    n = len(CAND[ti][1])
+    seconds = [k for k in range(len(CAND)) if (k + ti) % step == 0]
+    nt = len(seconds)
+
+    def check(tj: int, c1: int, c2: int, desc_on: bool) -> bool:
+        """
+        post: _
+        """
+        if not (0 <= tj < nt and 0 <= c1 < n and 0 <= c2 < 6):
+            return True
+        j = a = b = 0
+        for k in range(nt):
+            if tj == k:
+                j = seconds[k]
+        for k in range(n):
+            if c1 == k:
+                a = k
+        for k in range(6):
+            if c2 == k:
+                b = k
+        d = True if desc_on else False
+        with NoTracing():
+            if b >= len(CAND[j][1]):
+                return True
+            return run_mixed(ti, j, a, b, d) is None
+
+    return check
+
+
 def mapping(ti: int):
     from crosshair.tracers import NoTracing
 
@@ -197,7 +286,10 @@ def mapping(ti: int):
 
 def obligations(tier, seed):
     to = 60 if tier == "quick" else 240
-    return [ob(f"mapping/{t}", "xh", "mapping", {"ti": i}, timeout=to, group="mapping", bounds=f"{len(c)}^2 candidate pairs x descriptors x indent") for i, (t, c) in enumerate(CAND)]
+    obs_ = [ob(f"mapping/{t}", "xh", "mapping", {"ti": i}, timeout=to, group="mapping", bounds=f"{len(c)}^2 candidate pairs x descriptors x indent") for i, (t, c) in enumerate(CAND)]
+    step = 4 if tier == "quick" else 1
+    obs_ += [ob(f"mixed/{t}", "xh", "mixed", {"ti": i, "step": step}, timeout=to * 2, group="mixed", bounds=f"{len(c)} candidates x {'every 4th of the' if step > 1 else 'all'} 25 second types x their candidates x descriptors on/off: two record types with a same-named field in one file") for i, (t, c) in enumerate(CAND)]
+    return obs_
 
 
 # ------------------------------------------------------------------------------------------------ replay (files)
@@ -205,6 +297,20 @@ def replay(res):
     from flow.record import RecordDescriptor, RecordReader, RecordWriter
 
     ti = res["args"]["ti"]
+    if "/mixed/" in res["id"]:
+        v = cex_args(res, ["tj", "c1", "c2", "desc_on"])
+        tries = []
+        step = res["args"].get("step", 1)
+        seconds = [k for k in range(len(CAND)) if (k + ti) % step == 0]
+        if all(k in v for k in ("tj", "c1", "c2", "desc_on")) and 0 <= v["tj"] < len(seconds) and 0 <= v["c1"] < len(CAND[ti][1]) and 0 <= v["c2"] < len(CAND[seconds[v["tj"]]][1]):
+            tries.append((seconds[v["tj"]], v["c1"], v["c2"], bool(v["desc_on"])))
+        tries += [(j, a, b, d) for j in range(len(CAND)) for a in range(len(CAND[ti][1])) for b in range(len(CAND[j][1])) for d in (False, True)]
+        for j, a, b, d in tries:
+            p = run_mixed(ti, j, a, b, d)
+            if p:
+                return {"reproduced": True, "key": f"C14/mixed/{CAND[ti][0]}+{CAND[j][0]}", "what": f"records of two types in one file, field f: {CAND[ti][0]}={CAND[ti][1][a]!r} then {CAND[j][0]}={CAND[j][1][b]!r} (descriptors={d}): {p}"[:600],
+                        "input": {"types": [CAND[ti][0], CAND[j][0]], "c1": a, "c2": b, "descriptors": d}}
+        return {"reproduced": False, "what": "mixed files round-trip"}
     ftype, cands = CAND[ti]
     v = cex_args(res, ["c1", "c2", "desc_on", "indent"])
     combos = []
